@@ -10,7 +10,8 @@ TITLE = "CFG contains every execution (expansions)"
 LEVEL_TEXT = (
     "`for`, compound assignments and `++`/`--` expand to exactly the stated trees (symbolic result terms of the shortcut functions,"
     " builders inlined); every compound-assignment token uses the opcode of its infix token; loop and branch productions pass"
-    " their parts to the builders in the right positions; the lifting discipline of C12.2 (branch targets, fall-through sets)."
+    " their parts to the builders in the right positions; the lifting discipline of C12.2 (branch targets, fall-through sets, source order);"
+    " the AST-to-IR operator and kind tables are the identity on names."
 )
 NOT_DECIDED = "the path correspondence between structured execution and CFG walks for every program and decision sequence (translation validation; a different family)."
 TRUSTED = ["syn parser", "LALRPOP grammar reader (rules/grammar.py)", "term extractor (rules/terms.py)"]
